@@ -40,7 +40,7 @@ func encodeBytes(img image.Image, o *webp.EncoderOptions) ([]byte, error) {
 // unperturbed single-worker run and the recorded claim/process/record trace must be accepted by the
 // Lean RowPipe model (every guard true); (ii) concurrent use of the public API equals solo results.
 func suiteSched(rep *Report) error {
-	rep.Rule = "(i) lossy Encode (Method>=3, >=4 macroblock rows => row pipeline) with GOMAXPROCS 2..8 and seeded Gosched/sleep/stall perturbation at every hook point; bytes compared with the GOMAXPROCS=1 unperturbed run; event trace validated against the Lean RowPipe guards (op pipetrace); (ii) N goroutines calling Encode/Decode/DecodeConfig/GetFeatures/animation/mux concurrently vs solo results; non-trivial = run used >= 2 workers and hit the slow wait path or had overlapping rows"
+	rep.Rule = "(i) lossy Encode (Method>=3, >=4 macroblock rows => row pipeline) with GOMAXPROCS 2..8 and seeded Gosched/sleep/stall perturbation at every hook point; bytes compared with the GOMAXPROCS=1 unperturbed run; event trace validated against the Lean RowPipe guards (op pipetrace); (ii) N goroutines calling Encode/Decode/DecodeConfig/GetFeatures/animation/mux concurrently vs solo results, incl. per round 4 pairs of different pictures with equal macroblock dimensions whose lossy encodes take the serial path (Method >= 3 with < 4 macroblock rows, or a size target) and so compete for the same pooled encoders; non-trivial = run used >= 2 workers and hit the slow wait path or had overlapping rows"
 	defer runtime.GOMAXPROCS(runtime.GOMAXPROCS(0))
 	n := 60
 	if rep.Tier == "thorough" {
@@ -254,6 +254,27 @@ func suiteSched(rep *Report) error {
 					_ = m.Assemble(&b)
 					return digest(b.Bytes())
 				}})
+			}
+		}
+		// pairs of DIFFERENT pictures with the same macroblock dimensions whose lossy encodes take the
+		// serial path (Method >= 3 and fewer than 4 macroblock rows, or a size target): they compete for
+		// the same pooled encoders, so any state a pooled encoder keeps from its previous picture shows
+		// up as a result that depends on which encoder a call was handed
+		for p := 0; p < 4; p++ {
+			w, h := 8+r.Intn(90), 8+r.Intn(41)
+			ts := 0
+			if p == 3 {
+				h, ts = 49+r.Intn(60), 400+r.Intn(2000)
+			}
+			for q := 0; q < 2; q++ {
+				cls := []int{ClsNoise, ClsPhoto, ClsGradient, ClsPal16}[(p+2*q+r.Intn(2))%4]
+				img := GenImage(NewRNG(rep.Seed, uint64(9600000+rd*100+p*2+q)), w, h, cls, AlphaNone)
+				o := webp.DefaultOptions()
+				o.Method = 3 + r.Intn(4)
+				o.Quality = float32([]int{20, 50, 75, 80}[r.Intn(4)])
+				o.TargetSize = ts
+				oo := *o
+				jobs = append(jobs, job{fmt.Sprintf("encode:lossless=false:pool-pair:m=%d:q=%v:ts=%d:%dx%d", oo.Method, oo.Quality, ts, w, h), func() string { b, _ := encodeBytes(img, &oo); return digest(b) }})
 			}
 		}
 		solo := make([]string, len(jobs))
